@@ -579,6 +579,8 @@ func (w FederatingWrappedCallbacks) accept(c context.Context, a vocab.ActivitySt
 				t, err := w.db.Get(c, maybeMyFollowIRI)
 				if err != nil {
 					return err
+				} else if t == nil {
+					return ErrNotFound
 				}
 				if !streams.IsOrExtendsActivityStreamsFollow(t) {
 					return fmt.Errorf("peer gave an Accept wrapping a Follow but provided a non-Follow id")
